@@ -251,7 +251,12 @@ def _memo(key, fn):
 
 
 def _tx_key(tx):
-    return (tx.serialize_legacy(), tuple(t._value for t in tx.tx_ins),
+    """what a signature hash of `tx` can depend on: everything except the scriptSigs / witnesses (the legacy
+    digest blanks them, BIP143 / BIP341 never read them), plus the UTXO data attached to the inputs"""
+    return (tx.version, tx.locktime,
+            tuple((t.prev_tx, t.prev_index, int(t.sequence)) for t in tx.tx_ins),
+            tuple((o.amount, o.script_pubkey.raw_serialize()) for o in tx.tx_outs),
+            tuple(t._value for t in tx.tx_ins),
             tuple(None if t._script_pubkey is None else t._script_pubkey.raw_serialize() for t in tx.tx_ins))
 
 
@@ -303,7 +308,7 @@ class Oracle:
         self._saved = dict(cs=T.Tx.check_sig_segwit, cl=T.Tx.check_sig_legacy, vi=T.Tx.verify_input,
                            vd=P.NamedHDPublicKey.verify_descendent, gs=T.Tx.get_sig_segwit, gl=T.Tx.get_sig_legacy,
                            tv=T.Tx.verify, pp=S256Point.__dict__["parse"], sp=Signature.__dict__["parse"],
-                           tr=HDM.HDPublicKey.traverse, ch=HDM.HDPublicKey.child)
+                           tr=HDM.HDPublicKey.traverse, ch=HDM.HDPublicKey.child, pch=HDM.HDPrivateKey.child)
         sv = self._saved
         pp, sp = sv["pp"].__func__, sv["sp"].__func__
 
@@ -341,7 +346,7 @@ class Oracle:
 
         def verify_input(self, i):
             ti = self.tx_ins[i]
-            k = ("vi", _tx_key(self), i, self.segwit, _raw(ti.script_sig), tuple(ti.witness.items) if ti.witness else ())
+            k = ("vi", _tx_key(self), i, _raw(ti.script_sig), tuple(ti.witness.items) if ti.witness else ())
             r = _memo(k, lambda: sv["vi"](self, i))
             o.ver[i] = bool(r)
             return r
@@ -354,6 +359,11 @@ class Oracle:
             x, y, cc, depth, pfp, cn = _memo(("ch", xpub_body(self), index), go)
             return HDM.HDPublicKey(point=S256Point(x, y), chain_code=cc, depth=depth, parent_fingerprint=pfp,
                                    child_number=cn, network=self.network, pub_version=self.pub_version)
+
+        def priv_child(self, index):
+            # HDPrivateKey.child is pure and its result is only read: one object per (parent, index)
+            return _memo(("pch", self.private_key.secret, self.chain_code, self.depth, index, self.network),
+                         lambda: sv["pch"](self, index))
 
         def derive_real(hd, idxs):
             def go():
@@ -412,6 +422,7 @@ class Oracle:
         P.NamedHDPublicKey.verify_descendent = verify_descendent
         HDM.HDPublicKey.traverse = traverse
         HDM.HDPublicKey.child = child
+        HDM.HDPrivateKey.child = priv_child
         T.Tx.get_sig_segwit, T.Tx.get_sig_legacy, T.Tx.verify = get_sig_segwit, get_sig_legacy, verify
         S256Point.parse = classmethod(point_parse)
         Signature.parse = classmethod(sig_parse)
@@ -428,6 +439,7 @@ class Oracle:
         P.NamedHDPublicKey.verify_descendent = sv["vd"]
         HDM.HDPublicKey.traverse = sv["tr"]
         HDM.HDPublicKey.child = sv["ch"]
+        HDM.HDPrivateKey.child = sv["pch"]
         T.Tx.get_sig_segwit, T.Tx.get_sig_legacy, T.Tx.verify = sv["gs"], sv["gl"], sv["tv"]
         S256Point.parse = sv["pp"]
         Signature.parse = sv["sp"]
